@@ -20,7 +20,9 @@ p in 1..3, and products/quotients of up to four base units built to hit each der
 gram/tonne and bit/byte special cases; (b) conversions with constant factors, prefixes and inline names (C03's generator); \
 (c) unit lists (C09's generator); (d) the definition reply of every defined unit. Oracle: numeral (own reader) x factor/divfactor x \
 product of Context::lookup(printed name)^power must equal the computed quantity, exactly for exact numerals and within one \
-last-digit unit otherwise; dims and the quantity name must be those of the result. Non-trivial = distinct case whose printed \
+last-digit unit otherwise; dims and the quantity name must be those of the result; the Display text must show every factor, divisor \
+and unit name the structured reply carries. (e) plain results shown in another base and / or digits mode (`x unit -> digits 3 base 7`, \
+`-> hex`), numerals read in that base; (f) targets that are a bare constant (`100 -> 5`, `3|7 foot -> 2 foot`). Non-trivial = distinct case whose printed \
 unit differs from the raw dimensionality (prefix applied, special case, regrouping, named target).";
 
 #[derive(Clone, Debug, Serialize, Deserialize)]
@@ -32,6 +34,22 @@ pub enum Case {
     Conv(c03::Case),
     List(c09::Case),
     Def(String),
+    /// a plain result shown in another base and / or digits mode: `<inner> -> [mode] [base]`
+    Fmt { inner: Box<Case>, mode: u8, base: u8 },
+    /// `a -> t` for two plain constants (a dimensionless target that is only a constant factor)
+    ConstTarget { a: (u32, u32), t: (u32, u32), unit: Option<String> },
+}
+
+const FMT_MODES: [&str; 7] = ["", "digits", "digits 3", "digits 25", "frac", "sci", "eng"];
+
+fn fmt_base_text(base: u8) -> String {
+    match base {
+        0 => String::new(),
+        16 => "hex".into(),
+        8 => "oct".into(),
+        2 => "bin".into(),
+        b => format!("base {}", b),
+    }
 }
 
 impl Case {
@@ -66,6 +84,16 @@ impl Case {
             Case::Conv(c) => c.text(),
             Case::List(c) => c.text(),
             Case::Def(n) => n.clone(),
+            Case::Fmt { inner, mode, base } => {
+                format!("{} -> {} {}", inner.text(), FMT_MODES[*mode as usize % FMT_MODES.len()], fmt_base_text(*base))
+            }
+            Case::ConstTarget { a, t, unit } => {
+                let n = |x: &(u32, u32)| if x.1 <= 1 { format!("{}", x.0) } else { format!("{}|{}", x.0, x.1) };
+                match unit {
+                    Some(u) => format!("{} {} -> {} {}", n(a), u, n(t), u),
+                    None => format!("{} -> {}", n(a), n(t)),
+                }
+            }
         }
     }
 }
@@ -212,6 +240,26 @@ pub fn check_parts(
         }
         scale = scale.mul(&Q::new(BigInt::from(1), v));
         differs = true;
+    }
+    // what is *shown* (the Display form `n u w`) must carry the factor, the divisor and every unit
+    // name that the structured form carries: the statement is about the printed text
+    {
+        let shown = parts.to_string();
+        if let Some(f) = &parts.factor {
+            if !shown.contains(&format!("* {}", f)) {
+                return Err(("factor-not-shown".into(), format!("the reply has the constant factor {} but its text `{}` does not show it", f, shown)));
+            }
+        }
+        if let Some(d) = &parts.divfactor {
+            if !shown.contains(&format!("/ {}", d)) && !shown.contains(&format!("| {}", d)) {
+                return Err(("factor-not-shown".into(), format!("the reply has the constant divisor {} but its text `{}` does not show it", d, shown)));
+            }
+        }
+        for (n, p) in &names {
+            if *p != 0 && !shown.contains(n.as_str()) {
+                return Err(("unit-not-shown".into(), format!("the reply's unit {} is missing from its text `{}`", n, shown)));
+            }
+        }
     }
     // 2. dims
     if &udims != ex.dims {
@@ -400,6 +448,125 @@ pub fn check(env: &Env, case: &Case, st: &mut Stats) -> CaseResult {
                         }
                     }
                     mark(st, differs, &format!("{} => {}", text, shown));
+                    Ok(())
+                }
+                Err((sig, d)) => fail(env, st, &sig, &text, format!("shown `{}`: {}", shown, d)),
+            }
+        }
+        Case::Fmt { inner, mode, base } => {
+            if let Case::Plain { unit, .. } = &**inner {
+                if unusable(unit).is_some() {
+                    st.excluded("name not usable bare in a query");
+                    return Ok(());
+                }
+            }
+            st.eval();
+            st.class("plain_in_base_or_mode");
+            let mode_text = FMT_MODES[*mode as usize % FMT_MODES.len()];
+            if mode_text.is_empty() && *base == 0 {
+                return Ok(());
+            }
+            // the quantity: the inner expression evaluated on its own
+            let raw = match rinkx::eval_line(&env.ctx, &inner.text()) {
+                Out::Reply(QueryReply::Number(p)) => p.raw_value,
+                Out::Reply(QueryReply::Duration(d)) => d.raw.raw_value.clone(),
+                Out::Panic(p) => return fail(env, st, &panic_signature(&p), &inner.text(), format!("panicked: {}", p)),
+                _ => None,
+            };
+            let raw = match raw {
+                Some(r) => r,
+                None => {
+                    st.excluded("query refused (unit power not meaningful etc.)");
+                    return Ok(());
+                }
+            };
+            let v = match number_q(&raw) {
+                Some(v) => v,
+                None => {
+                    st.excluded("float-valued result");
+                    return Ok(());
+                }
+            };
+            let dims = rinkx::dims_of(&raw);
+            let parts = match rinkx::eval_line(&env.ctx, &text) {
+                Out::Panic(p) => return fail(env, st, &panic_signature(&p), &text, format!("panicked: {}", p)),
+                Out::Reply(QueryReply::Conversion(c)) => c.value,
+                Out::Reply(QueryReply::Number(p)) => p,
+                Out::Reply(QueryReply::Duration(d)) => d.raw.clone(),
+                Out::Reply(r) => return fail(env, st, "format-conversion-other-reply", &text, format!("{}", r)),
+                Out::Error(e) => return fail(env, st, "format-conversion-refused", &text, format!("{}", e)),
+            };
+            let shown = parts.to_string();
+            let ex = Expect {
+                value: &v,
+                dims: &dims,
+                check_labels: true,
+                unmarked: false,
+                // fraction mode prints n/d (or a plain integer) in decimal whatever the base (as in C05)
+                base: if *base == 0 || mode_text == "frac" { 10 } else { *base as u32 },
+            };
+            st.class(&format!("fmt_mode_{}", if mode_text.is_empty() { "default" } else { mode_text.split(' ').next().unwrap_or("") }));
+            match check_parts(env, &parts, &inline_none, &ex) {
+                Ok(differs) => {
+                    mark(st, differs, &format!("{} => {}", text, shown));
+                    Ok(())
+                }
+                Err((sig, d)) => fail(env, st, &sig, &text, format!("shown `{}`: {}", shown, d)),
+            }
+        }
+        Case::ConstTarget { a, t, unit } => {
+            if let Some(u) = unit {
+                if unusable(u).is_some() {
+                    st.excluded("name not usable bare in a query");
+                    return Ok(());
+                }
+            }
+            if a.1 == 0 || t.1 == 0 || t.0 == 0 {
+                return Ok(());
+            }
+            st.eval();
+            st.class("constant_target");
+            let src = match unit {
+                Some(u) => format!("{}|{} {}", a.0, a.1, u),
+                None => format!("{}|{}", a.0, a.1),
+            };
+            let raw = match rinkx::eval_line(&env.ctx, &src) {
+                Out::Reply(QueryReply::Number(p)) => p.raw_value,
+                Out::Reply(QueryReply::Duration(d)) => d.raw.raw_value.clone(),
+                _ => None,
+            };
+            let raw = match raw {
+                Some(r) => r,
+                None => {
+                    st.excluded("query refused (unit power not meaningful etc.)");
+                    return Ok(());
+                }
+            };
+            let v = match number_q(&raw) {
+                Some(v) => v,
+                None => {
+                    st.excluded("float-valued result");
+                    return Ok(());
+                }
+            };
+            let dims = rinkx::dims_of(&raw);
+            let parts = match rinkx::eval_line(&env.ctx, &text) {
+                Out::Panic(p) => return fail(env, st, &panic_signature(&p), &text, format!("panicked: {}", p)),
+                Out::Reply(QueryReply::Conversion(c)) => c.value,
+                Out::Reply(r) => return fail(env, st, "constant-target-other-reply", &text, format!("{}", r)),
+                Out::Error(e) => return fail(env, st, "constant-target-refused", &text, format!("{}", e)),
+            };
+            let shown = parts.to_string();
+            let ex = Expect {
+                value: &v,
+                dims: &dims,
+                check_labels: false,
+                unmarked: false,
+                base: 10,
+            };
+            match check_parts(env, &parts, &inline_none, &ex) {
+                Ok(_) => {
+                    mark(st, *t != (1, 1), &format!("{} => {}", text, shown));
                     Ok(())
                 }
                 Err((sig, d)) => fail(env, st, &sig, &text, format!("shown `{}`: {}", shown, d)),
@@ -695,6 +862,41 @@ fn base_strategy() -> impl Strategy<Value = Case> {
     prop_oneof![3 => targeted, 2 => random]
 }
 
+fn fmt_strategy(pool: Arc<UnitPool>) -> impl Strategy<Value = Case> {
+    let plain = (
+        proptest::sample::select(MANTS.to_vec()),
+        -12i32..=12,
+        any::<prop::sample::Index>(),
+        1u8..=3,
+    )
+        .prop_map(move |(m, k, i, p)| Case::Plain {
+            mant: m.to_string(),
+            k,
+            unit: pool.units[i.index(pool.units.len())].name.clone(),
+            p,
+        });
+    let inner = prop_oneof![3 => plain, 2 => base_strategy()];
+    (
+        inner,
+        0u8..FMT_MODES.len() as u8,
+        prop_oneof![2 => Just(0u8), 2 => Just(16u8), 1 => Just(8u8), 1 => Just(2u8), 1 => Just(10u8), 3 => 2u8..=36],
+    )
+        .prop_map(|(inner, mode, base)| Case::Fmt { inner: Box::new(inner), mode, base })
+}
+
+fn const_target_strategy(pool: Arc<UnitPool>) -> impl Strategy<Value = Case> {
+    (
+        (1u32..2000, 1u32..12),
+        (1u32..50, 1u32..9),
+        proptest::option::weighted(0.5, any::<prop::sample::Index>()),
+    )
+        .prop_map(move |(a, t, u)| Case::ConstTarget {
+            a,
+            t,
+            unit: u.map(|i| pool.units[i.index(pool.units.len())].name.clone()),
+        })
+}
+
 pub fn run(cx: &Cx) -> Report {
     let mut rep = Report::new(RULE);
     rep.assumptions = vec![
@@ -771,6 +973,32 @@ pub fn run(cx: &Cx) -> Report {
         |c| json!({"case": c, "text": c.text()}),
     ));
     rep.mark(cx, "unit-lists");
+
+    let k = known.clone();
+    let p = pool.clone();
+    rep.absorb(par_proptest(
+        cx,
+        "bases-and-modes",
+        cx.tier.pick(30_000, 600_000),
+        move || fmt_strategy(p.clone()),
+        move || mk_env(k.clone()),
+        |env, c, st| check(env, c, st),
+        |c| json!({"case": c, "text": c.text()}),
+    ));
+    rep.mark(cx, "bases-and-modes");
+
+    let k = known.clone();
+    let p = pool.clone();
+    rep.absorb(par_proptest(
+        cx,
+        "constant-targets",
+        cx.tier.pick(10_000, 200_000),
+        move || const_target_strategy(p.clone()),
+        move || mk_env(k.clone()),
+        |env, c, st| check(env, c, st),
+        |c| json!({"case": c, "text": c.text()}),
+    ));
+    rep.mark(cx, "constant-targets");
     rep
 }
 
